@@ -75,6 +75,12 @@ CHECKS.update({
          "Trusts glibc's libm (through Rust std and tgamma via FFI) as the mathematical reference; points where the function is undefined, within 0.01 of a gamma pole, or not representable in the evaluator's type are skipped and counted.", "4/C10"),
 })
 
+CHECKS.update({
+ "C08": ("independent pair-arithmetic reference (component formulas, exp/ln/atan2 definitions), validity predicates for inverse functions, differential against eval_f64 on real operands; exhaustive literal/real grids + random trees (proptest)",
+         "Exploration: every literal form and every operator/function on in-domain real operands exhaustively; random exact-operator trees compared bit for bit; every operator/function spelling applied at the root of random exact subtrees over generic complex operands compared at the tolerance the property states, inverse functions through their defining identity and principal range.",
+         "Arguments within 1e-3 of a branch cut or of zero modulus are skipped and counted; approximate nodes below the root are not asserted (error amplification).", "4/C08"),
+})
+
 NOT_YET = {
 }
 
